@@ -69,7 +69,12 @@ func c01Years(c *ctx) {
 				}
 				// stepping n days on the lunar side / on the civil side: always +1 and -1, plus a rotating n
 				nxs := [][]int{}
-				for _, n := range []int{1, -1, ns[k%len(ns)]} {
+				steps := []int{1, -1, ns[k%len(ns)]}
+				if k%29 == 0 {
+					// now and then a step of a century or so (across century years), either way
+					steps = append(steps, 36525+k%1000, -(36525 + k%777))
+				}
+				for _, n := range steps {
 					if y+n/300 < 1 || y+n/300 > 9998 || (y == 1 && n < 0 && m == 1) {
 						continue
 					}
